@@ -58,9 +58,9 @@ def args_from_input(input: ArgsInput) -> Args:
 
 
 def args_to_input(args: Args, flags_data: FlagsData) -> ArgsInput:
-    if args.var_positional:
+    if args.var_positional is not None:
         flags_data |= {"VARARGS"}
-    if args.var_keyword:
+    if args.var_keyword is not None:
         flags_data |= {"VARKEYWORDS"}
     return ArgsInput(
         argcount=len(args.positional_only) + len(args.positional_or_keyword),
@@ -78,9 +78,9 @@ def args_to_varnames(args: Args) -> Tuple[str, ...]:
     keyword only args.
     """
     parameters = args.parameters
-    if args.var_positional:
+    if args.var_positional is not None:
         parameters.move_to_end(args.var_positional)
-    if args.var_keyword:
+    if args.var_keyword is not None:
         parameters.move_to_end(args.var_keyword)
     return tuple(parameters.keys())
 
@@ -113,13 +113,13 @@ def args_to_parameters(args: Args) -> OrderedDict[str, _ParameterKind]:
             ),
             *(
                 ((args.var_positional, _ParameterKind.VAR_POSITIONAL),)
-                if args.var_positional
+                if args.var_positional is not None
                 else ()
             ),
             *((n, _ParameterKind.KEYWORD_ONLY) for n in args.keyword_only),
             *(
                 ((args.var_keyword, _ParameterKind.VAR_KEYWORD),)
-                if args.var_keyword
+                if args.var_keyword is not None
                 else ()
             ),
         )
